@@ -2629,6 +2629,9 @@ RULES = [
     ("E7.fences-closed-before-start", "assemble(): a loop closing every fence dominates the creation of the worker threads. Broken for: the second job on one assembler (fences left open by the first job release workers early).", 5),
     ("E2.layer-sort-range", "_build_layers (layered_sorted): every std::sort/stable_sort on the element list sorts exactly one layer - from the layer boundary pushed last to the current element count, or [layers(k), layers(k+1)). Broken for: layered_sorted with >= 2 threads (cells migrate between Cuthill-McKee layers, adjacent cells are scattered concurrently).", 2),
     ("E2.cell-index-kind", "DomainAssembler set-up functions: containers indexed by mesh cell numbers (the mesh's index sets, the element mask sized by get_num_elements()) are subscripted with a mesh cell number - an entry of _element_indices, a mesh-part target index, a loop variable bounded by the number of mesh cells - never with a position in the list of selected cells (loop variable bounded by _element_indices.size()). Broken for: assembly on a proper cell subset with >= 2 threads (adjacency graph of the wrong cells, races).", 4),
+    ("E14.pool-free-tasks", "who-may-call: no call path (through resolved callees, constructors of created objects and the destructors of their classes, bases and members) leads from the Task constructor/destructor and the task functions the workers call without mutual exclusion (prepare, assemble, scatter, finish - everything but combine) to a MemoryPool function that touches the pool's static map without a lock (allocate/increase/release_memory). Broken for: any job run with >= 2 workers whose task clones/copies/creates a LAFEM container (shallow clone of a job vector): data race on the reference count, use-after-free or abort.", 25),
+    ("E8.clear-resets-appended", "every member container that the compile() call graph fills by appending (push_back/emplace_back) without resetting it first is reset (clear(), assignment, resize(0), swap with an empty temporary) on every path through clear(). Broken for: clear(); set_max_worker_threads(other); compile_all_elements() on one assembler - the workers index stale/too long layer or colour tables (cells never assembled, out-of-range reads).", 3),
+    ("E8.clear-keeps-size", "members that the constructor sizes by the number of mesh cells and that add_element/add_mesh_part/compile subscript with mesh cell numbers are not left empty by clear(). Broken for: re-use of an assembler for another cell subset (clear(); add_element(); compile()): std::out_of_range abort.", 1),
     ("E13.worker-count-wrap", "work-distribution builders: a loop whose start value subtracts from the unsigned worker count cannot wrap for any admissible count the preceding assignment can produce (bounded enumeration, dominating guards respected). Broken for: meshes so small that zero workers result.", 1),
 ]
 
@@ -2655,6 +2658,8 @@ def run(tier):
         if tag == "":
             rule_fence(ck, facts)
             rule_thread_layer_ends(ck, facts)
+            rule_clear_resets(ck, facts)
+            rule_clear_keeps_size(ck, facts)
         try:
             jobs = build_models(facts, tag)
             enum, can, comp = compile_model(facts)
@@ -2708,6 +2713,8 @@ def run(tier):
                 rule_layer_sort(ck, facts, lf.pop())
             else:
                 ck.incomplete("E2.layer-sort-range", "layer offsets member not identified")
+    for tag, extra in variants:
+        rule_pool_free(ck, extra, tag)
     ck.assume("worker ids / worker counts are enumerated up to %d; the dispatch conditions and assertions compare them with constants <= 2, so larger values behave like %d" % (NMAX, NMAX))
     ck.assume("the master's loops over `_threads.size()` run over the same index set as the creation loop over the worker count (one emplace_back per iteration)")
     ck.assume("mutual exclusion is provided by std::mutex/std::unique_lock/std::condition_variable as specified; lock objects live until the end of their block")
@@ -2931,3 +2938,304 @@ def rule_cell_index_kind(ck, facts, elem_field):
                   "%s is subscripted with a mesh cell number (%s)" % (what, why) if ok
                   else "%s is indexed by mesh cell numbers but is subscripted with `%s`, a %s (%s): for a proper cell subset (add_element/add_mesh_part + compile) the data of the wrong cells is read - the neighbour graph, hence layers and colours, no longer describe the selected cells and vertex-adjacent cells are scattered concurrently" % (what, render(sub), k_, why),
                   fn.file, n.get("l"), trivial=(k_ == "contract"))
+
+
+# -------------------------------------------------------------------------------------------------
+# who-may-call: code run concurrently by the workers must not use the unsynchronised MemoryPool map
+# -------------------------------------------------------------------------------------------------
+
+class CallGraph:
+    def __init__(self, facts):
+        self.facts = facts
+        self.byfull, self.byqn, self.bycls_dtor, self.ctors = {}, {}, {}, {}
+        for f in facts.functions:
+            self.byfull.setdefault(f.full, f)
+            self.byqn.setdefault(f.qn, []).append(f)
+            if f.d.get("dtor"):
+                self.bycls_dtor.setdefault(f.cls, f)
+            if f.d.get("ctor"):
+                self.ctors.setdefault(f.cls, []).append(f)
+        self._dt = {}
+
+    def resolve(self, call):
+        f = self.byfull.get(call.get("cfull") or "")
+        if f is not None:
+            return [f]
+        return list(self.byqn.get(call.get("callee") or "", []))
+
+    @staticmethod
+    def _cls(t):
+        t = re.sub(r"^(const|volatile)\s+", "", (t or "").strip())
+        t = re.sub(r"\s*(&|&&|\*)$", "", t)
+        return t
+
+    def dtors(self, cls, depth=0):
+        """destructor bodies run when an object of class cls dies: its own, its bases', its members'"""
+        cls = self._cls(cls)
+        if cls in self._dt or depth > 5:
+            return self._dt.get(cls, [])
+        self._dt[cls] = out = []
+        if cls in self.bycls_dtor:
+            out.append(self.bycls_dtor[cls])
+        seen_b = set()
+        for c in self.ctors.get(cls, []):
+            for i in c.d.get("inits", []) or []:
+                if i.get("base") and i["base"] not in seen_b:
+                    seen_b.add(i["base"])
+                    out.extend(self.dtors(i["base"], depth + 1))
+                elif i.get("member") and isinstance(i.get("init"), dict):
+                    # a member object (not a reference): initialised by a constructor call or by a
+                    # function returning an object by value
+                    ini = strip(i["init"])
+                    t = None
+                    if ini.get("k") in ("Construct", "TempObj"):
+                        t = self._cls(ini.get("ccls") or c.type(ini.get("t")))
+                    elif ini.get("k") in ("MCall", "Call", "OpCall"):
+                        rets = {g.type(g.d.get("ret")) for g in self.resolve(ini)}
+                        if rets and not any(r_.rstrip().endswith("&") or r_.rstrip().endswith("*") for r_ in rets):
+                            t = self._cls(c.type(ini.get("t")))
+                    if t is not None and ("m", i["member"]) not in seen_b and (t in self.ctors or t in self.bycls_dtor):
+                        seen_b.add(("m", i["member"]))
+                        out.extend(self.dtors(t, depth + 1))
+        return out
+
+    def succ(self, fn):
+        out = []
+        for n in fn.nodes():
+            if is_call(n):
+                for g in self.resolve(n):
+                    out.append((g, n))
+                if n.get("k") in ("Construct", "TempObj") and n.get("ccls"):
+                    for g in self.dtors(n["ccls"]):
+                        out.append((g, n))
+            elif n.get("k") == "Var" and n.get("t") is not None and n.get("init") is None:
+                for g in self.dtors(fn.type(n["t"])):
+                    out.append((g, n))
+        return out
+
+    def path_to(self, starts, is_sink, limit=20000):
+        """breadth-first search; returns [(function, call node into the next)] ending at a sink, or None"""
+        from collections import deque
+        par = {}
+        q = deque()
+        for s_ in starts:
+            if s_.full not in par:
+                par[s_.full] = None
+                q.append(s_)
+        n_ = 0
+        while q and n_ < limit:
+            f = q.popleft()
+            n_ += 1
+            if is_sink(f):
+                path = []
+                k = f.full
+                while par[k] is not None:
+                    pf, call = par[k]
+                    path.append((pf, call))
+                    k = pf.full
+                return f, path[::-1], n_
+            for g, call in self.succ(f):
+                if g.full not in par:
+                    par[g.full] = (f, call)
+                    q.append(g)
+        return None, [], n_
+
+
+def rule_pool_free(ck, extra, tag):
+    R = "E14.pool-free-tasks"
+    facts = featlib.extract("tu/c17_domain_assembler.cpp", files=featlib.repo_path("kernel/"), cfg=False, extra=extra)
+    ck.tu(facts)
+    cg = CallGraph(facts)
+    pool = [f for f in facts.functions if f.cls == "FEAT::MemoryPool"]
+    sinks = {}
+    for f in pool:
+        touches = any(x.get("k") == "Ref" and x.get("dk") == "smember" and (x.get("qn") or "").startswith("FEAT::MemoryPool::") for x in f.nodes())
+        locked = any(x.get("k") in ("Construct", "TempObj") and LOCK_CLS.match(x.get("ccls", "") or "") for x in f.nodes()) or \
+            any(x.get("k") == "MCall" and x.get("ccls") == "std::mutex" and x.get("n") == "lock" for x in f.nodes())
+        if touches and not locked:
+            sinks[f.full] = f
+    if not sinks:
+        ck.incomplete(R, "no unsynchronised accessor of the MemoryPool's static map found (MemoryPool changed or now locked)%s" % tag)
+        return
+    workers = sorted({f.cls for f in facts.functions if re.search(r"DomainAssembler<.*>::Worker<", f.cls) and f.name == "operator()"})
+    if len(workers) < 5:
+        ck.incomplete(R, "only %d Worker<Job> instantiations in the call-graph facts%s" % (len(workers), tag))
+    for wcls in workers:
+        job = short_job(wcls)
+        wfns = [f for f in facts.functions if f.cls == wcls]
+        entries = {}
+        for wf in wfns:
+            for n in wf.nodes():
+                if task_call(n) and n.get("n") != "combine":
+                    for g in cg.resolve(n):
+                        entries.setdefault("Task::%s" % n["n"], []).append(g)
+                    if not cg.resolve(n):
+                        ck.incomplete(R, "Worker<%s>%s: body of task->%s() not in the fact base" % (job, tag, n["n"]))
+                if n.get("k") in ("Construct", "TempObj") and (n.get("ccls") or "").endswith("::Task") and wf.name == "operator()":
+                    for g in cg.resolve(n):
+                        entries.setdefault("Task::Task", []).append(g)
+                    for g in cg.dtors(n["ccls"]):
+                        entries.setdefault("Task::~Task", []).append(g)
+        if "Task::Task" not in entries:
+            ck.incomplete(R, "Worker<%s>%s: task construction not found in operator()" % (job, tag))
+            continue
+        for ename, starts in sorted(entries.items()):
+            sink, path, visited = cg.path_to(starts, lambda f: f.full in sinks)
+            key = "Worker<%s>%s/%s" % (job, tag, ename)
+            if sink is None:
+                ck.ob(R, key, True, "no call path from %s (run concurrently by the worker threads) to the unsynchronised MemoryPool map accessors %s; %d functions visited" % (
+                    ename, sorted({s_.name for s_ in sinks.values()}), visited), starts[0].file, starts[0].line)
+            else:
+                chain = " -> ".join("%s (line %s)" % (pf.qn.split("<")[0].rsplit("::", 2)[-2] + "::" + pf.name if "::" in pf.qn else pf.name, call.get("l")) for pf, call in path)
+                ck.ob(R, key, False,
+                      "%s runs on every worker thread without mutual exclusion and reaches MemoryPool::%s, which updates the process-wide pool map without a lock: %s -> MemoryPool::%s. Two workers constructing/destroying their tasks at the same time race on the reference counter of a shared array (lost update -> premature free or `Memory address not found` abort)" % (
+                          ename, sink.name, chain, sink.name), path[0][0].file if path else starts[0].file, path[0][1].get("l") if path else starts[0].line)
+
+
+# -------------------------------------------------------------------------------------------------
+# reset covers state: clear() resets every member the compile() call graph fills by appending
+# -------------------------------------------------------------------------------------------------
+
+APPENDS = ("push_back", "emplace_back", "insert", "emplace", "append")
+
+
+def member_resets(fx, field):
+    """statements of fx.fn that leave this->field empty / freshly assigned, as CFG statement ids"""
+    out = []
+    fn = fx.fn
+    for n in fn.nodes():
+        i = n.get("i")
+        if i is None or fx.cfg.block_of(i) is None:
+            continue
+        if n.get("k") == "MCall" and this_field(n.get("obj")) == field:
+            if n.get("n") == "clear" and not n.get("a"):
+                out.append(i)
+            elif n.get("n") == "resize" and n.get("a") and strip(n["a"][0]).get("k") == "Int" and strip(n["a"][0])["v"] == "0":
+                out.append(i)
+            elif n.get("n") in ("assign",):
+                out.append(i)
+            elif n.get("n") == "swap" and n.get("a") and strip(n["a"][0]).get("k") in ("Construct", "TempObj") and not strip(n["a"][0]).get("a"):
+                out.append(i)
+        elif n.get("k") == "MCall" and n.get("n") == "swap" and strip(n.get("obj") or {}).get("k") in ("Construct", "TempObj") and not strip(n["obj"]).get("a") \
+                and n.get("a") and this_field(n["a"][0]) == field:
+            out.append(i)
+        elif n.get("k") == "OpCall" and n.get("op") == "=" and n.get("a") and this_field(n["a"][0]) == field:
+            out.append(i)
+        elif n.get("k") == "Assign" and n.get("op") == "=" and this_field(n["lhs"]) == field:
+            out.append(i)
+    return out
+
+
+def rule_clear_resets(ck, facts):
+    R = "E8.clear-resets-appended"
+    cls_fns = {f.name: f for f in facts.functions if re.search(r"DomainAssembler<", f.cls) and "::Worker<" not in f.cls and "::DegreeCompare" not in f.cls
+               and "::ThreadStats" not in f.cls and f.cfg is not None and f.body is not None and not f.d.get("ctor")}
+    roots = [n for n in ("compile", "compile_all_elements") if n in cls_fns]
+    clr = cls_fns.get("clear")
+    if not roots or clr is None:
+        ck.incomplete(R, "compile()/compile_all_elements()/clear() of DomainAssembler not in the fact base")
+        return
+    # call graph of the compile path (member helpers called on this)
+    calls = {}           # callee name -> [(caller name, call node)]
+    order, todo = [], list(roots)
+    while todo:
+        f = todo.pop()
+        if f in order:
+            continue
+        order.append(f)
+        for n in cls_fns[f].nodes():
+            if n.get("k") == "MCall" and (n.get("obj") or {}).get("k") == "This" and n.get("n") in cls_fns:
+                calls.setdefault(n["n"], []).append((f, n))
+                todo.append(n["n"])
+    fxs = {f: FX(cls_fns[f]) for f in order}
+
+    def reset_before(fname, pos, field, depth=0):
+        """on every path of the compile run reaching position pos in fname, field was reset before"""
+        fx = fxs[fname]
+        rs = member_resets(fx, field)
+        if any(fx.dominates(fx.pos(fx.fn.by_id(r)), pos) for r in rs):
+            return True
+        if fname in roots or depth > 4:
+            return False
+        sites = calls.get(fname, [])
+        return bool(sites) and all(reset_before(g, fxs[g].pos(c), field, depth + 1) for g, c in sites)
+    need = {}
+    for f in order:
+        fx = fxs[f]
+        for n in fx.fn.nodes():
+            fld = this_field(n.get("obj")) if n.get("k") == "MCall" else None
+            if fld is None or n.get("n") not in APPENDS or "vector" not in fx.fn.ntype(strip(n["obj"])):
+                continue
+            if not reset_before(f, fx.pos(n), fld):
+                need.setdefault(fld, []).append("%s() line %s" % (f, n.get("l")))
+    fxc = FX(clr)
+    opq = [n for n in opaque_calls(fxc) if n.get("i") is not None and fxc.cfg.block_of(n["i"]) is not None]
+    for fld, sites in sorted(need.items()):
+        rs = member_resets(fxc, fld)
+        helper_resets = []
+        for n in opq:
+            h = find_method(clr.cls, n)
+            if h is not None and h.cfg is not None and not n.get("a"):
+                hx = FX(h)
+                hr = member_resets(hx, fld)
+                if hr and hx.reach((hx.cfg.entry, 0), target_blocks=[hx.cfg.exit], avoid_stmts=hr, avoid_blocks=hx.cfg.noreturn_blocks()) is None:
+                    helper_resets.append(n["i"])
+        esc = fxc.reach((fxc.cfg.entry, 0), target_blocks=[fxc.cfg.exit], avoid_stmts=rs + helper_resets, avoid_blocks=fxc.cfg.noreturn_blocks())
+        key = "clear/%s" % fld
+        if esc is not None:
+            other = [n["i"] for n in opq if n["i"] not in helper_resets] + \
+                [n["i"] for n in clr.nodes() if is_call(n) and n.get("i") is not None and fxc.cfg.block_of(n["i"]) is not None
+                 and (any(this_field(a) == fld for a in n.get("a", [])) or (n.get("k") == "MCall" and this_field(n.get("obj")) == fld and n.get("n") not in VEC_READS))]
+            if fxc.reach((fxc.cfg.entry, 0), target_blocks=[fxc.cfg.exit], avoid_stmts=rs + helper_resets + other, avoid_blocks=fxc.cfg.noreturn_blocks()) is None:
+                ck.incomplete(R, "%s: clear() may reset the member through a construct that is not modelled" % key)
+                continue
+        ck.ob(R, key, esc is None,
+              "clear() resets %s on every path; the compile path appends to it in %s relying on it being empty" % (fld, ", ".join(sites[:3])) if esc is None
+              else "a path through clear() leaves %s untouched, but the compile path appends to it (%s) without resetting it first: after clear(); set_max_worker_threads()/set_threading_strategy(); compile...() the table starts with the entries of the previous compilation - workers read stale layer/colour/element boundaries (cells never assembled or assembled twice, out-of-range indices)" % (fld, ", ".join(sites[:3])),
+              clr.file, clr.line)
+
+
+def rule_clear_keeps_size(ck, facts):
+    """members the constructor sizes by the number of mesh cells and that the set-up functions
+    subscript with mesh cell numbers keep that size across clear()"""
+    R = "E8.clear-keeps-size"
+    sized = {}
+    for f in facts.functions:
+        if f.d.get("ctor") and re.search(r"DomainAssembler<", f.cls) and "::Worker<" not in f.cls:
+            for i in f.d.get("inits", []) or []:
+                if i.get("member") and any(x.get("k") == "MCall" and x.get("n") == "get_num_elements" for x in walk(i.get("init") or {})):
+                    sized[i["member"]] = render(i["init"])
+    if not sized:
+        ck.incomplete(R, "DomainAssembler constructor with mesh-sized members not in the fact base")
+        return
+    fns = {f.name: f for f in facts.functions if re.search(r"DomainAssembler<", f.cls) and "::Worker<" not in f.cls and f.cfg is not None and f.body is not None and not f.d.get("ctor")}
+    clr = fns.get("clear")
+    if clr is None:
+        ck.incomplete(R, "DomainAssembler::clear not in the fact base")
+        return
+    fx = FX(clr)
+    for m, how in sorted(sized.items()):
+        users = sorted({f.name for f in fns.values() if f.name != "clear" for n in f.nodes()
+                        if (n.get("k") == "MCall" and n.get("n") == "at" and this_field(n.get("obj")) == m) or
+                        (n.get("k") == "OpCall" and n.get("op") == "[]" and n.get("a") and this_field(n["a"][0]) == m)})
+        if not users:
+            continue
+        shrink, regrow = [], []
+        for n in clr.nodes():
+            if n.get("k") == "MCall" and this_field(n.get("obj")) == m and n.get("i") is not None and fx.cfg.block_of(n["i"]) is not None:
+                a0 = strip(n["a"][0]) if n.get("a") else {}
+                if (n.get("n") == "clear" and not n.get("a")) or (n.get("n") == "resize" and a0.get("k") == "Int" and a0.get("v") == "0"):
+                    shrink.append(n)
+                elif n.get("n") in ("resize", "assign"):
+                    regrow.append(n["i"])
+            if n.get("k") == "OpCall" and n.get("op") == "=" and n.get("a") and this_field(n["a"][0]) == m and n.get("i") is not None:
+                regrow.append(n["i"])
+        key = "clear/%s" % m
+        if opaque_calls(fx, about={m}) and not shrink:
+            ck.incomplete(R, "%s: clear() hands the member to helpers" % key)
+            continue
+        bad = [s_ for s_ in shrink if fx.reach((fx.pos(s_)[0], fx.pos(s_)[1] + 1), target_blocks=[fx.cfg.exit], avoid_stmts=regrow, avoid_blocks=fx.cfg.noreturn_blocks()) is not None]
+        ck.ob(R, key, not bad,
+              "clear() empties %s (line %s) and does not size it again, but the constructor sizes it as %s and %s subscript it with mesh cell numbers: after clear(), add_element()/add_mesh_part() throw std::out_of_range and compile() selects no cell" % (m, bad[0].get("l"), how, ", ".join(u + "()" for u in users)) if bad
+              else "clear() keeps the mesh-cell size of %s that %s rely on" % (m, ", ".join(u + "()" for u in users)),
+              clr.file, bad[0].get("l") if bad else clr.line)
